@@ -13,6 +13,10 @@ claimed = {
    text="Proof: isSubpath returns exactly inside(root, sub) (relative path exists, is not '..' and does not start with '../'); in FileImportLocator.Resolve the only file-system call is ioutil.ReadFile (every static callee in os/io/ioutil/net is compared with the allowed list), its argument is the cleaned join of root and path and inside(root, argument) holds on every path reaching it; an error yields the empty text; importRuntime.Eval performs no file-system call of its own.",
    note="Assumed (trusted externs): filepath.Rel/Clean/Join are lexical (modelled as uninterpreted functions; 'rel does not begin with ..' is read as 'lies lexically inside root'), fmt.Sprintf of string operands concatenates, os.PathSeparator is '/'. Not decided: byte-for-byte equality of returned text and file content; symbolic links.",
    ref="DESIGN.md §8 C17"),
+ "C13": dict(
+   text="Proof of the frame condition 'no package-level state is written after init': a whole-program write analysis over the SSA of every function of parser, interpreter, scope, stdlib, util and engine (stores, map updates, deletes, appends, calls writing through an argument, followed through parameters, closure bindings, interface dispatch and function values) yields one obligation per write site; each must be a sync/atomic operation on a variable declared atomic, dominated by Lock() of the declared package-level mutex, or a declared registration-time API. In addition the parser entry points write nothing reachable from their arguments. With no shared state written, concurrent parses cannot influence each other. Counterexamples are replayed by 16 goroutines x 400 concurrent parses compared with the sequential answers (plus uniqueness of runtime-component ids).",
+   note="Decided structurally (no SMT needed: the obligations are frame conditions over write sites). Assumed: no writes through reflection/unsafe; library objects shared through package-level variables (templates, regexps) are concurrency-safe as documented; the stdlib registration API (AddStdlibPkg/AddStdlibFunc) and engine.UnitTestResetIDs are not called concurrently with parsing or evaluation. Not decided: the Go runtime's behaviour under an actual race (absence of the racing write is what is proved).",
+   ref="DESIGN.md §8 C13"),
 }
 NA_DEFAULT = "not yet claimed: contracts for this property are still being built (DESIGN.md §8); no other technique is substituted"
 na = {}
